@@ -146,10 +146,10 @@ Definition mig_model (c : World.world * (str + (str * cfgdata)) * store * list b
             # results computed earlier by the name-mode chains of single parts / files of the pipeline, each on its own
             part_values = {}
             for ref in case.get('compute_parts', []):
+                ref, ns = (ref, ref.split('#')[1]) if isinstance(ref, str) else ref      # (a part is mounted under the namespace of its name)
                 part_chain = Config(Path('data'), ref).chain(parameter_mode=False)
                 for n, t in part_chain.tasks.items():
-                    # (in these cases a part is mounted under the namespace that bears its name)
-                    part_values[f'{ref.split("#")[1]}::{n}'] = describe_value(t.value)
+                    part_values[f'{ns}::{n}'] = describe_value(t.value)
             if case.get('compute_parts'):
                 for n, t in old.tasks.items():
                     if t.has_data:
@@ -305,7 +305,17 @@ class DirMigrations(Migrations):
                 dict(classes=[a, b, c], files={'cfg/exp.v2.json': {'tasks': ['@M.*'], 'x': 1}}, base={'file': 'cfg/exp.v2.json'},
                      context=None, compute=[0, 1, 2], drys=[True, False, False]),
                 dict(classes=[a, b, c], files={'cfg/part.v1.json': {'tasks': ['@M.*'], 'x': 2}, 'cfg/top.json': {'uses': 'cfg/part.v1.json as p'}},
-                     base={'file': 'cfg/top.json'}, context=None, compute=[0, 1, 2], drys=[False, False])]
+                     base={'file': 'cfg/top.json'}, context=None, compute=[0, 1, 2], drys=[False, False]),
+                # two files with the same tasks and the same values under two namespaces; only the one listed later was computed
+                dict(classes=[dict(K(0, 'A', params=[P('x')])), K(1, 'B', group='g', meta_inputs=[{'cls': 0}], data='dir'),
+                              K(2, 'C', params=[P('f')], meta_inputs=[{'cls': 0}])],
+                     files={'left.json': {'tasks': ['@M.*'], 'x': 4, 'f': 1}, 'right.json': {'tasks': ['@M.*'], 'x': 4, 'f': 2},
+                            'main.json': {'uses': ['left.json as left', 'right.json as right']}},
+                     base={'file': 'main.json'}, context=None, compute=[], compute_parts=[['right.json', 'right']], drys=[False, False], verbose=False),
+                dict(classes=[dict(K(0, 'A', params=[P('x')])), K(1, 'B', group='g', meta_inputs=[{'cls': 0}], data='dir')],
+                     files={'left.json': {'tasks': ['@M.*'], 'x': 4}, 'right.json': {'tasks': ['@M.*'], 'x': 4},
+                            'main.json': {'uses': ['left.json as left', 'right.json as right']}},
+                     base={'file': 'main.json'}, context=None, compute=[], compute_parts=[['right.json', 'right'], ['left.json', 'left']], drys=[True, False], verbose=False)]
 
     def gen(self, rng, tier):
         out = []
